@@ -372,11 +372,22 @@ func c20(r *core.Run) {
 	}
 	// (c) bounded resources at quiescence
 	e.w.Quiesce()
-	liveWatchers := 0
+	liveWatchers, liveLib := 0, 0
 	for _, t := range e.app.LiveTasks() {
 		if strings.HasPrefix(t.Name, "w.watch") {
 			liveWatchers++
 		}
+		// every task of the application process that the harness did not start is a library goroutine
+		harnessTask := false
+		for _, pre := range []string{"create", "reconfigurer", "poller", "queries", "Refresh", "fresh", "mutator"} {
+			harnessTask = harnessTask || strings.HasPrefix(t.Name, pre)
+		}
+		if !harnessTask {
+			liveLib++
+		}
+	}
+	if liveLib > 3 {
+		r.Failf("resources", "library-goroutines", "%d goroutines started by the library are alive after %d reconfigurations: their number must not grow with the number of reconfigurations (a watcher plus at most two helpers is expected)", liveLib, len(steps))
 	}
 	kinds := e.app.FDKinds()
 	maxInst := 1
